@@ -46,6 +46,9 @@ pub struct Pose {
 
 /// one AUTD3 per pose; a single device gets its sound speed through `Geometry::set_sound_speed`, the devices of a
 /// rig each their own through `Device::sound_speed`
+static MAKE_GEO_CALLS: std::sync::atomic::AtomicU64 = std::sync::atomic::AtomicU64::new(0);
+static RECONFIGURED: std::sync::atomic::AtomicU64 = std::sync::atomic::AtomicU64::new(0);
+
 pub fn make_geo(poses: &[Pose]) -> Geometry {
     let devs = poses
         .iter()
@@ -55,6 +58,26 @@ pub fn make_geo(poses: &[Pose]) -> Geometry {
         })
         .collect();
     let mut g = Geometry::new(devs);
+    // every other geometry reaches its poses through `Geometry::reconfigure` from decoy poses: everything a device
+    // derives from its pose (transducer positions, directions, the cached inverse isometry FociSTM localises its
+    // points with) must follow the move - seeded change C07-9 left the cached inverse behind
+    if MAKE_GEO_CALLS.fetch_add(1, std::sync::atomic::Ordering::Relaxed) % 2 == 1 {
+        let decoys: Vec<autd3_core::geometry::Device> = poses
+            .iter()
+            .enumerate()
+            .map(|(i, p)| {
+                let rot = UnitQuaternion::new_normalize(Quaternion::new(0.3 + 0.1 * i as f32, p.quat[3] + 0.5, -0.4, p.quat[1] - 0.7));
+                AUTD3 { pos: Point3::new(p.pos[2] + 31.0, p.pos[0] - 57.0, p.pos[1] + 13.0 * (i + 1) as f32), rot }.into()
+            })
+            .collect();
+        let mut moved = Geometry::new(decoys);
+        moved.reconfigure(|d| {
+            let p = &poses[d.idx()];
+            AUTD3 { pos: Point3::new(p.pos[0], p.pos[1], p.pos[2]), rot: UnitQuaternion::new_normalize(Quaternion::new(p.quat[0], p.quat[1], p.quat[2], p.quat[3])) }
+        });
+        RECONFIGURED.fetch_add(1, std::sync::atomic::Ordering::Relaxed);
+        g = moved;
+    }
     if poses.len() == 1 {
         g.set_sound_speed(poses[0].c);
     } else {
@@ -931,6 +954,7 @@ pub fn run(args: &Args) {
         "support (f64): largest |Focus arrival phase| - 0.5 = {:.4} steps; largest multi-focus deviation / allowance = {:.3}",
         ctx.max_focus_excess, ctx.max_multi_ratio
     ));
+    ctx.out.count_n("geometries whose devices were moved to their poses by Geometry::reconfigure", RECONFIGURED.load(std::sync::atomic::Ordering::Relaxed));
     ctx.out.finish(
         "foci",
         "a case is one FociSTM pattern read back on all 249 transducers of one device (with its Focus-gain reference when N = 1); distinct by (device index in its rig and pose bits, point bits, offsets, generator); counters marked `(invisible)` are variations the model does not see (device history, foci per pattern going down, later frames); a rig's devices are visible to the model through `rig`/`keep`/`dev` lines",
